@@ -59,6 +59,7 @@ pub fn critical_widths(text: &str, indent_width: usize, max_lines: usize) -> Vec
     out
 }
 
+#[derive(Clone, Copy)]
 pub struct Families {
     pub corpus_grid: bool,
     pub corpus_critical: bool,
@@ -70,6 +71,12 @@ pub struct Families {
     pub seeded_scale: usize,
     /// smallest column width used in seeded evaluations
     pub seeded_min_width: usize,
+    /// seeded generated programs use the tame profile
+    pub tame: bool,
+    /// seeded configurations never collapse simple statements
+    pub no_collapse: bool,
+    /// also evaluate seeded programs at critical widths of their infinite-width output
+    pub seeded_critical: bool,
 }
 
 impl Work {
@@ -85,6 +92,14 @@ impl Work {
     }
 
     pub fn n_items(&self, fam: &Families, tier: Tier) -> usize {
+        let only_seeded = std::env::var("SV_ONLY_SEEDED").is_ok();
+        let fam = &Families {
+            corpus_grid: fam.corpus_grid && !only_seeded,
+            corpus_critical: fam.corpus_critical && !only_seeded,
+            corpus_ranges: fam.corpus_ranges && !only_seeded,
+            corpus_sort: fam.corpus_sort && !only_seeded,
+            ..*fam
+        };
         let mut n = 0;
         if fam.corpus_grid {
             n += self.n_grid();
@@ -119,6 +134,14 @@ impl Work {
         mut i: usize,
         f: &mut dyn FnMut(&mut Ctx, &Eval),
     ) {
+        let only_seeded = std::env::var("SV_ONLY_SEEDED").is_ok();
+        let fam = &Families {
+            corpus_grid: fam.corpus_grid && !only_seeded,
+            corpus_critical: fam.corpus_critical && !only_seeded,
+            corpus_ranges: fam.corpus_ranges && !only_seeded,
+            corpus_sort: fam.corpus_sort && !only_seeded,
+            ..*fam
+        };
         let quick = ctx.quick();
         if fam.corpus_grid {
             if i < self.n_grid() {
@@ -237,8 +260,11 @@ impl Work {
             if i < seeded {
                 let mut rng = Rng::derive(ctx.seed, 0x6e6, i as u64);
                 let syntax = *rng.pick(&cfg::SYNTAXES);
-                let prog = gen::program(&mut rng, syntax);
-                let base = Cfg::random(&mut rng, syntax, fam.seeded_min_width);
+                let prog = gen::program_profile(&mut rng, syntax, fam.tame);
+                let mut base = Cfg::random(&mut rng, syntax, fam.seeded_min_width);
+                if fam.no_collapse {
+                    base.collapse_simple_statement = "Never";
+                }
                 if !fmt::parses(&prog, &base) {
                     ctx.count("gen.rejected_by_parser");
                     return;
@@ -254,6 +280,9 @@ impl Work {
                         pinned: false,
                     },
                 );
+                if !fam.seeded_critical {
+                    return;
+                }
                 // two critical widths of the infinite-width output
                 let mut wide = base.clone();
                 wide.column_width = usize::MAX;
